@@ -99,7 +99,8 @@ def check_order(ctx, f):
                "GetAll is awaited only after the PropertiesChanged subscription completed" if ok else
                "the GetAll await can start before the PropertiesChanged subscription has completed", g.where)
     # stream returned by init derives from the subscription
-    seeds = {l for s in subs for b, i, l in af.ready_points(init, s)}
+    pre = [s for s in subs if gets and all(af.await_starts_after(init, g, s) for g in gets)]
+    seeds = {l for s in pre for b, i, l in af.ready_points(init, s)}
     der = mir.derives(init, seeds) if seeds else set()
     rets = []
     for b, i, pl, rv, ln in mir.assignments(init):
@@ -190,7 +191,6 @@ def check_sites(ctx, f):
     ctx.floor("P-SITES", "call sites of update_cache", len(sites), 3)
     fed = {PC + "::init": 0, PC + "::keep_updated": 0}
     for body, c in sites:
-        key = "%s@%s" % (body.id, "+".join(sorted({mir.local_name(body, l) or "" for a in c.args[2:4] for l in mir.operand_locals(a)})))
         if len(c.args) < 5:
             ctx.ob("P-SITES", "arity:" + body.id, False, "update_cache call with unexpected arity", c.where)
             continue
